@@ -2,6 +2,7 @@ package core
 
 import (
 	"fmt"
+	"go/ast"
 	"go/constant"
 	"go/token"
 	"go/types"
@@ -906,6 +907,81 @@ type EffectRule struct {
 	Need func(desc string) []string
 	// Min is the minimum number of effect sites that must be found in this function.
 	Min int
+	// LiftDepth > 0 (with CallerScope) makes the rule interprocedural for unexported helpers: a guard missing at
+	// an effect inside an unexported function that is never used as a value is accepted when every call site
+	// of that function in CallerScope has the guard passed (or, recursively, is lifted itself). The guards must
+	// not depend on the function they are evaluated in.
+	LiftDepth   int
+	CallerScope []*ssa.Function
+}
+
+// liftCtx caches what the lifting needs for one EffectRule run.
+type liftCtx struct {
+	r       EffectRule
+	flows   map[*ssa.Function]*GuardFlow
+	callers map[*ssa.Function][]Site
+	asValue map[*ssa.Function]bool
+}
+
+func newLiftCtx(r EffectRule) *liftCtx {
+	lc := &liftCtx{r: r, flows: map[*ssa.Function]*GuardFlow{}, callers: map[*ssa.Function][]Site{}, asValue: map[*ssa.Function]bool{}}
+	for _, f := range r.CallerScope {
+		for _, b := range f.Blocks {
+			for _, in := range b.Instrs {
+				if c, ok := in.(ssa.CallInstruction); ok {
+					if cal := StaticCallee(c); cal != nil {
+						lc.callers[cal] = append(lc.callers[cal], Site{f, c, CalleeName(c)})
+					}
+				}
+				for _, op := range in.Operands(nil) {
+					if op == nil || *op == nil {
+						continue
+					}
+					fv, isF := (*op).(*ssa.Function)
+					if !isF {
+						continue
+					}
+					if c, ok := in.(ssa.CallInstruction); ok && c.Common().Value == fv {
+						continue // in call position
+					}
+					lc.asValue[fv] = true
+				}
+			}
+		}
+	}
+	return lc
+}
+
+func unexportedFunc(fn *ssa.Function) bool {
+	n := fn.Name()
+	return fn.Parent() == nil && n != "" && n != "init" && !ast.IsExported(n)
+}
+
+// holdsAtCallers: name (guard or derived fact) has passed at every call site of fn.
+func (lc *liftCtx) holdsAtCallers(fn *ssa.Function, name string, depth int, seen map[*ssa.Function]bool) bool {
+	if depth <= 0 || !unexportedFunc(fn) || lc.asValue[fn] || seen[fn] || len(lc.callers[fn]) == 0 {
+		return false
+	}
+	seen[fn] = true
+	defer delete(seen, fn)
+	for _, cs := range lc.callers[fn] {
+		gf := lc.flows[cs.Fn]
+		if gf == nil {
+			gf = Flow(cs.Fn, lc.r.Guards, lc.r.Derived...)
+			lc.flows[cs.Fn] = gf
+		}
+		f := gf.At(cs.Call.(ssa.Instruction))
+		ok := false
+		if gi := gf.guardIndex(name); gi >= 0 {
+			ok = gf.Passed(f, gi)
+		} else {
+			ok = gf.DerivedPassed(f, name)
+		}
+		if !ok && !lc.holdsAtCallers(cs.Fn, name, depth-1, seen) {
+			return false
+		}
+	}
+	return true
 }
 
 // CheckEffects runs an EffectRule and adds obligations (one per effect site × guard).
@@ -928,6 +1004,16 @@ func CheckEffectsFn(p *Prog, h *RuleH, fn *ssa.Function, r EffectRule) int {
 		idx[d.Name] = -1 - i
 	}
 	n := 0
+	var lc *liftCtx
+	lifted := func(name string) bool {
+		if r.LiftDepth <= 0 {
+			return false
+		}
+		if lc == nil {
+			lc = newLiftCtx(r)
+		}
+		return lc.holdsAtCallers(fn, name, r.LiftDepth, map[*ssa.Function]bool{})
+	}
 	for _, b := range fn.Blocks {
 		for _, in := range b.Instrs {
 			desc, ok := r.Effect(p, in)
@@ -956,6 +1042,8 @@ func CheckEffectsFn(p *Prog, h *RuleH, fn *ssa.Function, r EffectRule) int {
 					c := fmt.Sprintf("%s#%s!%s", FuncName(fn), desc, d.Name)
 					if gf.DerivedPassed(f, d.Name) {
 						h.OK(c, p.InstrPos(in), "one alternative of the disjunctive guard passed on every path to the effect")
+					} else if lifted(d.Name) {
+						h.OK(c, p.InstrPos(in), "unexported helper never used as a value: the guard has passed at every one of its call sites")
 					} else {
 						h.Bad(c, p.InstrPos(in), fmt.Sprintf("effect %s is reachable on a path where none of the alternatives %v of %q has passed; passed here: [%s]", desc, d.Alts, d.Name, strings.Join(gf.PassedNames(f), ",")))
 					}
@@ -965,6 +1053,8 @@ func CheckEffectsFn(p *Prog, h *RuleH, fn *ssa.Function, r EffectRule) int {
 				c := fmt.Sprintf("%s#%s!%s", FuncName(fn), desc, g.Name)
 				if gf.Passed(f, gi) {
 					h.OK(c, p.InstrPos(in), "guard passed on every path to the effect")
+				} else if lifted(g.Name) {
+					h.OK(c, p.InstrPos(in), "unexported helper never used as a value: the guard has passed at every one of its call sites")
 				} else {
 					why := fmt.Sprintf("effect %s is reachable on a path where guard %q has not passed", desc, g.Name)
 					if len(gf.Sites[gi]) == 0 {
@@ -1038,9 +1128,26 @@ func CheckSuccessFn(p *Prog, h *RuleH, fn *ssa.Function, r SuccessRule) {
 	for _, n := range r.Need {
 		need[n] = true
 	}
-	ownResult := func(val ssa.Value, gi int) bool {
-		g := r.Guards[gi]
-		return len(g.Comps) == 1 && gf.isResult(val, resRef{gi, 0})
+	// ownComp: component (gi,ci) is decided by the returned values themselves: the success-signalling value (or, for
+	// an error-kind component, the returned error) IS that component's result, with a kind that makes
+	// "the caller sees success" equivalent to "the component passed".
+	var curResults []ssa.Value
+	ownComp := func(val ssa.Value, gi, ci int) bool {
+		kind := r.Guards[gi].Comps[ci].Kind
+		if gf.isResult(val, resRef{gi, ci}) {
+			if val.Type().String() == "bool" {
+				return kind == IsTrue && r.SuccessBool || kind == IsFalse && !r.SuccessBool
+			}
+			return kind == ErrNil || kind == IsNil
+		}
+		if kind == ErrNil {
+			for _, rv := range curResults {
+				if rv != val && rv.Type().String() == "error" && gf.isResult(gf.Mem.Canon(rv), resRef{gi, ci}) {
+					return true // handed to the caller as this function's own error
+				}
+			}
+		}
+		return false
 	}
 	check := func(desc string, pos string, f factSet, val ssa.Value, at *ssa.BasicBlock) {
 		// classify val (seeing through defer-spilled result cells)
@@ -1066,8 +1173,14 @@ func CheckSuccessFn(p *Prog, h *RuleH, fn *ssa.Function, r SuccessRule) {
 				all := true
 				for _, nm := range alt {
 					gi := gf.guardIndex(nm)
-					if gi < 0 || !(gf.Passed(f, gi) || ownResult(val, gi)) {
+					if gi < 0 {
 						all = false
+						continue
+					}
+					for ci := range r.Guards[gi].Comps {
+						if f&(1<<gf.bit[gi][ci]) == 0 && !ownComp(val, gi, ci) {
+							all = false
+						}
 					}
 				}
 				ok = ok || all
@@ -1087,11 +1200,11 @@ func CheckSuccessFn(p *Prog, h *RuleH, fn *ssa.Function, r SuccessRule) {
 				h.OK(c, pos, "guard passed on every path to this success return")
 				continue
 			}
-			// the returned value is this guard's own result: success <=> passed
-			own := false
+			// the returned value is this guard's own result: success <=> passed (per component: passed on the path, or decided by the returned values)
+			own := true
 			for ci := range g.Comps {
-				if gf.isResult(val, resRef{gi, ci}) && len(g.Comps) == 1 {
-					own = true
+				if f&(1<<gf.bit[gi][ci]) == 0 && !ownComp(val, gi, ci) {
+					own = false
 				}
 			}
 			if own {
@@ -1120,11 +1233,13 @@ func CheckSuccessFn(p *Prog, h *RuleH, fn *ssa.Function, r SuccessRule) {
 				for _, in := range b.Instrs {
 					f = gf.transfer(f, in)
 				}
+				curResults = ret.Results
 				check(fmt.Sprintf("return[%d]", retIdx), p.InstrPos(ret), f, e, b.Preds[i])
 			}
 			continue
 		}
 		retIdx++
+		curResults = ret.Results
 		check(fmt.Sprintf("return[%d]", retIdx), p.InstrPos(ret), gf.At(ret), val, b)
 	}
 	if nret < r.MinReturns {
